@@ -253,6 +253,114 @@ def dump_oracle(c, out):
     return None
 
 
+# ---------------------------------------------------------------- the BMP records a running daemon sends to a station
+BMP_PEERS = [("a", "10.0.0.1", 65001, ""), ("b", "10.0.0.2", 65002, "old"), ("c", "10.0.0.3", 65000, "")]
+BMP_PFX = ["10.1.0.0/24", "10.2.0.0/24", "10.3.0.0/16"]
+
+
+def gen_bmp(rng):
+    """sessions with a 4-octet-AS peer, a peer WITHOUT the 4-octet AS capability and an iBGP peer; announcements, withdrawals;
+    a BMP station (pre-policy, post-policy, Loc-RIB or all) connected from the start; what the station decodes is compared
+    with the sessions and tables the daemon reports"""
+    pol = rng.choice(["pre", "post", "local", "all"])
+    ev = []
+    for _ in range(rng.choice([2, 4, 8, 12])):
+        n, addr, asn, opt = rng.choice(BMP_PEERS)
+        pf = rng.choice(BMP_PFX)
+        if rng.random() < 0.75:
+            head = [] if asn == 65000 else [asn]
+            tail = rng.choice([[], [65020], [65020, 65021], [64999, 64998, 64997]])
+            lp = "100" if asn == 65000 else "-"
+            ev.append("(upd %s (a %s 0 (%s) %s %s %d (%s) - ()))" % (n, pf, " ".join(map(str, head + tail)), rng.choice(["-", "0", "10"]), lp, rng.choice([0, 1, 2]),
+                                                                " ".join(map(str, rng.sample([6553601, 6553602], rng.choice([0, 0, 1, 2]))))))
+        elif rng.random() < 0.7:
+            ev.append("(upd %s (w %s 0))" % (n, pf))
+        else:
+            # the transport is lost; most of the time the peer comes back (its routes are gone and are reported again)
+            ev.append("(close %s)" % n)
+            if rng.random() < 0.7:
+                ev.append("(up %s%s)" % (n, (" " + opt) if opt else ""))
+    ups = ["(up %s%s)" % (n, (" " + o) if o else "") for n, _, _, o in BMP_PEERS]
+    rng.shuffle(ups)
+    steps = ups + ev + ["(obs)", "(bmpread)"]
+    return ("bmp", "(sim (global 65000 1.1.1.1 sync bmp=%s) (peers %s) (steps %s))" % (pol, " ".join("(%s %s %d)" % (n, a, s_) for n, a, s_, _ in BMP_PEERS), " ".join(steps)), pol)
+
+
+def bmp_oracle(c, out):
+    from checks import simlib
+    o = out[4:] if out.startswith("SIM ") else out
+    if not o.startswith("ok"):
+        return ("harness-error", out[:300])
+    items = simlib.parse_sx(o[2:])
+    obs = [simlib.parse_obs(i) for i in items if i and i[0] == "obs"]
+    recs = [i for i in items if i and i[0] == "bmp"]
+    if not obs or not recs:
+        return ("harness-error", "no observation or no BMP read: " + out[:200])
+    pol = c[2]
+    addr_of = {a: (n, s_) for n, a, s_, _ in BMP_PEERS}
+    up = set()
+    pre, post, loc = {}, {}, {}
+    seen_init = False
+    for r in recs[-1][1:]:
+        kind = r[0]
+        if kind in ("unsplittable", "unreadable", "rm-not-an-update"):
+            return ("bmp-record-unreadable", "a record the daemon sent to the BMP station does not parse back as its own header says: %s; scenario %s" % (" ".join(map(str, r))[:300], c[1][:400]))
+        if kind == "init":
+            seen_init = True
+            continue
+        if kind in ("term", "other"):
+            continue
+        ptype, flags, addr, asn, bid = int(r[1]), int(str(r[2]), 16), str(r[3]), int(r[4]), str(r[5])
+        if ptype == 3:                                      # the Loc-RIB instance
+            if asn != 65000 or bid != "1.1.1.1":
+                return ("bmp-locrib-peer-differs", "a Loc-RIB record names AS %d / id %s; the speaker is AS 65000 / 1.1.1.1" % (asn, bid))
+        else:
+            if addr not in addr_of or addr_of[addr][1] != asn:
+                return ("bmp-peer-differs", "a record names the peer %s AS %d, no such session exists (%s)" % (addr, asn, " ".join(map(str, r))[:200]))
+        if kind == "peerup":
+            if ptype != 3:
+                up.add(addr)
+            continue
+        if kind == "peerdown":
+            # RFC 7854 4.9: a Peer Down implicitly withdraws everything reported for that peer
+            up.discard(addr)
+            pre.pop(addr, None)
+            post.pop(addr, None)
+            continue
+        if kind != "rm":
+            continue
+        if ptype != 3 and addr not in up:
+            return ("bmp-route-before-peer-up", "a Route Monitoring record of %s precedes its Peer Up" % addr)
+        tab = loc if ptype == 3 else (post.setdefault(addr, {}) if flags & 0x40 else pre.setdefault(addr, {}))
+        for it in r[6:]:
+            pfx = str(it[1]).split("#")[0]
+            if it[0] == "w":
+                tab.pop(pfx, None)
+            else:
+                tab[pfx] = it[2] if len(it) > 2 else ""
+    if not seen_init:
+        return ("bmp-no-initiation", "the station received no Initiation message")
+    ob = obs[-1]
+    want_up = {a for n, a, _, _ in BMP_PEERS if ob["peers"].get(n, {}).get("state") == "established"}
+    if up != want_up:
+        return ("bmp-sessions-differ", "the station's Peer Up / Peer Down records leave %s up; the daemon reports %s established" % (sorted(up), sorted(want_up)))
+    if pol in ("pre", "all"):
+        for n, a, _, _ in BMP_PEERS:
+            want = {pf: at for pf, _, at in ob["adjin_raw"].get(n, [])}
+            if pre.get(a, {}) != want:
+                return ("bmp-pre-policy-differs-from-adj-in", "peer %s: the pre-policy Route Monitoring records replay to %s; the Adj-RIB-In holds %s" % (n, sorted(pre.get(a, {}).items()), sorted(want.items())))
+    if pol in ("post", "all"):
+        for n, a, _, _ in BMP_PEERS:
+            want = {pf: p["attrs"] for pf, paths in ob["rib"].items() for p in paths if p["src"] == a}
+            if post.get(a, {}) != want:
+                return ("bmp-post-policy-differs-from-table", "peer %s: the post-policy Route Monitoring records replay to %s; the table holds from that peer %s" % (n, sorted(post.get(a, {}).items()), sorted(want.items())))
+    if pol in ("local", "all"):
+        want = {pf: paths[0]["attrs"] for pf, paths in ob["rib"].items() if paths}
+        if loc != want:
+            return ("bmp-loc-rib-differs-from-best-paths", "the Loc-RIB Route Monitoring records replay to %s; the best paths are %s" % (sorted(loc.items()), sorted(want.items())))
+    return None
+
+
 def run(ctx):
     proof = core.coq_properties("C19")
     ctx.say("proof stage: ok=%s theorems=%d audit=%d (%.1fs)" % (proof["ok"], len(proof["theorems"]), len(proof["audit"]), proof.get("wall_s", 0)))
@@ -293,11 +401,17 @@ def run(ctx):
     cov2 = core.differential(ctx, "c19", proof, dcases, lambda c: c[1], dump_oracle, model_applies=lambda c: False, nontrivial=lambda c: True,
                              model_line_of=lambda c: "rtr 00", correspondence_name="mrtWriter.dumpTable + mrt Serialize / ParseBody on a running server (oracle: the global table listing)",
                              impl_spec=SIM_SPEC, model_name="c19")
+    # the BMP records a running daemon sends to a station over TCP (bmpClient.loop: Initiation, Peer Up / Down, Route Monitoring
+    # pre-policy, post-policy and Loc-RIB), decoded as a station decodes them and replayed into tables
+    bcases = [gen_bmp(ctx.rng) for _ in range(ctx.scale(300, 3000))]
+    cov3 = core.differential(ctx, "c19", proof, bcases, lambda c: c[1], bmp_oracle, model_applies=lambda c: False, nontrivial=lambda c: True,
+                             model_line_of=lambda c: "rtr 00", correspondence_name="bmpClient.loop records on a running server, read by a station (oracle: the session states, Adj-RIB-In and table listings)",
+                             impl_spec=SIM_SPEC, model_name="c19")
     for k in ("evaluations", "distinct_nontrivial", "traces_validated_against_impl"):
-        cov[k] = cov.get(k, 0) + cov2.get(k, 0)
+        cov[k] = cov.get(k, 0) + cov2.get(k, 0) + cov3.get(k, 0)
     pc = core.proof_coverage(proof)
     pc.update(cov)
-    kinds = {"daemon-table-dump-scenarios": len(dcases)}
+    kinds = {"daemon-table-dump-scenarios": len(dcases), "daemon-bmp-station-scenarios": len(bcases)}
     for c in cases:
         kinds[c[0]] = kinds.get(c[0], 0) + 1
     pc.update({
@@ -305,7 +419,7 @@ def run(ctx):
         "input_distribution": kinds,
         "trusted_base": core.TRUSTED_COMMON + ["BMP/MRT message bodies and all ZAPI bodies are NOT modelled: decided by search (no panic, no hang, input unmodified, round trip of constructor-built messages)"],
     })
-    return ctx.finish(pc, ["byte strings are lists of values in [0,256)", "the daemon-emitted BMP records are covered by the constructor-built seeds (bmpPeerUp/Down/Route use these constructors), not captured from a running server; the MRT table dump IS taken from a running server (plain, ADD-PATH and 4-octet-AS peers, local routes) and compared with the table listing"])
+    return ctx.finish(pc, ["byte strings are lists of values in [0,256)", "the BMP records ARE captured from a running server by a station on a loopback TCP socket (Initiation, Peer Up / Down, Route Monitoring pre-policy / post-policy / Loc-RIB; a 4-octet-AS peer, a peer without that capability, an iBGP peer; no ADD-PATH peers, no import policy, statistics and route mirroring off) and replayed: sessions = the established peers, pre-policy = Adj-RIB-In, post-policy = the table's paths of that peer, Loc-RIB = the best paths (keyed by prefix: the path identifiers of Loc-RIB records are not interpreted); the MRT table dump is taken from a running server too (plain, ADD-PATH and 4-octet-AS peers, local routes) and compared with the table listing"])
 
 
 def replay(ctx, path):
